@@ -698,27 +698,20 @@ func (r *Runner) runStep(sc *Scenario, i int, step Step, w *world, M, srcDir, ou
 		if !mutating(e) {
 			continue
 		}
-		if !allowedPath(e, outAbs) && !(w.outReal != "" && allowedPath(e, w.outReal)) {
+		if !allowedPath(e, outAbs) && !(w.outReal != "" && allowedPath(e, w.outReal)) && !transientSibling(e, M, pre, outAbs, w.outReal) {
 			add(i, "C18", "mutation-outside-out", e.Prim, "%s performed %s on %s", cmdline, e.Prim, relTo(M, e.Path))
 		}
 	}
 	checkFailure("-out mode", act, args)
-	faultOnOut := false
-	for _, e := range act.Log {
-		if e.Fault != "" && (allowedPath(e, outAbs) || (w.outReal != "" && allowedPath(e, w.outReal))) {
-			faultOnOut = true
-		}
-	}
 	if act.Exit == 0 {
 		st.Outcomes["success"]++
 		switch {
 		case mustFail || !pl.Writable:
 			add(i, "C17", "exit-zero-on-failure", failureSite(step), "%s must fail (%s) but exited 0", cmdline, failureSiteOr(step, "unwritable destination"))
-		case faultOnOut && !wroteAfterLastFault(act.Log, outAbs, w.outReal):
-			// an injected failure on the write path is acceptable only if moq
-			// then got the complete file there some other way (compared below)
-			add(i, "C17", "exit-zero-on-failure", faultSite(step.Fault), "%s: %v failed by injection, nothing was written to -out afterwards, but moq exited 0", cmdline, fired)
 		}
+		// an injected failure followed by exit 0 is acceptable exactly when the
+		// complete file is there all the same (a fallback route, or a failure
+		// of something optional such as a directory sync): compared below
 		if !refOK {
 			if !mustFail {
 				// the same command fails when printing to stdout from the same state
@@ -746,7 +739,7 @@ func (r *Runner) runStep(sc *Scenario, i int, step Step, w *world, M, srcDir, ou
 		w.prior, w.lastBytes, w.lastOK = "own", postBytes, true
 	} else {
 		st.Outcomes["failure"]++
-		if refOK && !faultOnOut && pl.Writable && !mustFail {
+		if refOK && len(fired) == 0 && pl.Writable && !mustFail {
 			// nothing failed that we know of, stdout mode works: -out mode must too
 			prop, class := "C17", "unexpected-failure"
 			if step.Rm && w.prior != "absent" {
@@ -909,6 +902,23 @@ func allowedPath(e simos.LogEntry, outAbs string) bool {
 			return true // temp sibling derived from the -out name
 		}
 		return false
+	}
+	return ok(e.Path) && ok(e.Path2)
+}
+
+// transientSibling: a file in -out's directory that did not exist before the
+// run (whether it is gone again at exit is the tree comparison's business).
+func transientSibling(e simos.LogEntry, M string, pre map[string]fileState, outAbs, outReal string) bool {
+	ok := func(p string) bool {
+		if p == "" || p == outAbs || p == outReal {
+			return true
+		}
+		d := filepath.Dir(p)
+		if d != filepath.Dir(outAbs) && (outReal == "" || d != filepath.Dir(outReal)) {
+			return false
+		}
+		_, existed := pre[relTo(M, p)]
+		return !existed
 	}
 	return ok(e.Path) && ok(e.Path2)
 }
